@@ -509,7 +509,8 @@ func TestProp(t *testing.T) {
 			"fails on the k-th vertex call or on a poisoned vertex, or a nil transformer: result has the same type and nesting (a *Bounds becomes its 4-corner polygon) with vertex i = t(vertex i), the " +
 			"input is unchanged, nil returns the geometry itself, a failing vertex yields exactly the transformer's error. Non-trivial = some transformer called >=2 times, or a pair with a datum shift, or " +
 			"axis != enu; geometry cases with the failing vertex outside the first member, or nested / multi-vertex successes. Distinct by case hash." +
-			" Round 9: two real transformers of one history are compared bit for bit; pools pair a GRS80 reference carrying a shift with a WGS84 one.",
+			" Round 9: two real transformers of one history are compared bit for bit; pools pair a GRS80 reference carrying a shift with a WGS84 one." +
+			" Round 11: half of the grid-shift pools give the datum twice, by +nadgrids and by +towgs84.",
 		Assumptions: []string{"single-goroutine histories (the property is about call history, not concurrent use)"},
 		Gen:         gen,
 		Run:         run,
